@@ -52,6 +52,8 @@ def build(ctx, node, d, keys, rng, counter):
         err = signrun.sign_single(p, q, keys, PRE[0], PRE[2], PRE[1], "error")
         if err or not q.exists():
             raise core.MachineryError(f"pre-signing failed: {err}")
+        if n % 2:   # signed by ANOTHER encoder: the block's tag in its two-byte form - an already signed envelope all the same
+            q.write_bytes(envgen.widen_block_tags(q.read_bytes()))
         p = q
     return p
 
